@@ -57,6 +57,30 @@ def replay(ctx):
     if not src:
         print("[replay] record has no source; detail:", json.dumps(d, indent=1)[:2000])
         return True
+    if d.get("blueprint_source"):
+        # C08 create family: deploy the recorded child as blueprint, the recorded factory, re-send every recorded test
+        from eth_abi import encode
+        cfg = parse_cfg(d["config"])
+        bp = compile_src(d["blueprint_source"], cfg, formats=("blueprint_bytecode",))["blueprint_bytecode"]
+        out = compile_src(src, cfg, formats=("bytecode",))
+        ch = Chain(cfg.evm)
+        blueprint = ch.deploy(bytes.fromhex(bp[2:]))
+        factory = ch.deploy(bytes.fromhex(out["bytecode"][2:]))
+        still = 0
+        for f in d.get("failures", []):
+            data = bytes.fromhex(f["calldata"])
+            if len(data) == 36:
+                data = data[:4] + encode(["address"], [blueprint])
+            r = ch.call(factory, data)
+            words = [str(int.from_bytes(r.out[i:i + 32], "big")) for i in range(0, len(r.out), 32)] if r.ok else ["REVERT", r.out.hex()]
+            exp = [x for x in " ".join(f["expected"]).replace("(", " ").replace(")", " ").replace(",", " ").split()]
+            same = words == exp
+            still += 0 if same else 1
+            print(f"[replay] {d['config']} {f['test']}: expected {exp} observed now {words} (recorded {f['observed']}) -> "
+                  f"{'agrees with source order' if same else 'STILL DIFFERS'}")
+        if still:
+            ctx.violation("failing-input", rec.get("name"), d, key=rec.get("key"))
+        return True
     from eth_utils import keccak
     calls = d.get("calls") or []
     norm = []
